@@ -281,6 +281,82 @@ PROBES = {
 }
 
 
+class _Canon:
+    """Builder of hand-written canonical schedules (deterministic coverage of every action kind / outcome, so that the
+    vacuity floors never depend on the random walks).  It only tracks heights and sequences; TLC judges the run."""
+
+    def __init__(self, sid, kind):
+        self.s = {"id": sid, "kind": kind, "tp": BIG_TP, "ska": 0, "skb": 0, "acts": []}
+        self.h = {"A": 1, "B": 1}
+        self.ns = {"A": 1, "B": 1}
+        self.kind = kind
+
+    def _act(self, a, c, **kw):
+        self.h[c] += 1
+        self.s["acts"].append(dict({"a": a, "c": c, "dt": 1}, **kw))
+
+    def send(self, c, proto, data, toT=300, toH=0):
+        seq = self.ns[c]
+        if proto == "v1":
+            self._act("SendV1", c, toH=toH, toT=toT, data=data)
+        else:
+            self._act("SendV2", c, toT=toT, data=data)
+        self.ns[c] += 1
+        return {"proto": proto, "src": c, "seq": seq, "toH": toH if proto == "v1" else 0, "toT": toT, "data": data, "route": "ok"}
+
+    def sync(self, c):
+        """block on the counterparty and update c's client to it; returns the proof height"""
+        o = "B" if c == "A" else "A"
+        self._act("Block", o)
+        p = self.h[o]
+        self._act("Update", c, p=p)
+        return p
+
+    def relay(self, name, c, pkt, ph, **kw):
+        self._act(name + ("V1" if pkt["proto"] == "v1" else "V2"), c, pkt=pkt, ph=ph, **kw)
+
+
+def canon_schedules():
+    out = []
+    for kind in KINDS:
+        v1, v2 = kind != "V2", kind != "ORDERED"
+        k = _Canon("CANON-%s" % kind, kind)
+        pk = []
+        if v1:
+            pk += [k.send("A", "v1", [d]) for d in ("ok2", "fail2", "async1")]
+        if v2:
+            pk += [k.send("A", "v2", d, toT=150) for d in (["ok1", "ok2"], ["ok2", "fail1"], ["fail2"], ["async1"], ["ok"])]
+        ph = k.sync("B")
+        for p in pk:
+            k.relay("Recv", "B", p, ph)
+        k.relay("Recv", "B", pk[0], ph)                      # duplicate relay
+        bad = dict(pk[0], data=["fail"] + pk[0]["data"][1:])
+        k.relay("Recv", "B", dict(bad, seq=len(pk) + 1), ph)  # forged packet
+        for p in pk:
+            if p["data"][0].startswith("async"):
+                k._act("WriteAck" + ("V1" if p["proto"] == "v1" else "V2"), "B", pkt=p, ack=["ok"])
+                k._act("WriteAck" + ("V1" if p["proto"] == "v1" else "V2"), "B", pkt=p, ack=["ok"])   # second write must fail
+        ph = k.sync("A")
+        for p in pk:
+            ack = ["ok"] * len(p["data"]) if all(d.startswith("ok") or d.startswith("async") for d in p["data"]) else (["err"] if p["proto"] == "v1" else ["SENTINEL"])
+            k.relay("Ack", "A", p, ph, ack=ack, canon=True)
+        k.relay("Ack", "A", pk[0], ph, ack=["ok"] * len(pk[0]["data"]), canon=True)   # duplicate ack: no-op
+        # a packet that times out: short height timeout (v1) / seconds timeout (v2)
+        t = k.send("B", "v1", ["ok"], toT=0, toH=k.h["A"] + 2) if v1 else k.send("B", "v2", ["ok"], toT=(2 + len(k.s["acts"]) + 4) // 2 + 1)
+        for _ in range(3):
+            k._act("Block", "A")
+        ph = k.sync("B")
+        k.relay("Timeout", "B", t, ph, nsr=1)
+        k.relay("Timeout", "B", t, ph, nsr=1)                 # duplicate timeout: no-op
+        k.relay("Recv", "A", t, 0)                            # receive after the timeout: must fail
+        if v1 and kind != "ORDERED":
+            k._act("CloseInit", "A")
+        k._act("Freeze", "A")
+        k.send("A", "v1" if v1 else "v2", ["ok"])            # send through a frozen client: must fail
+        out.append(k.s)
+    return out
+
+
 def match_known(fail, sched, known):
     """Is this monitor failure inside the input class of a recorded finding? Decided from the schedule's inputs."""
     tr, step, prop, clause = fail
@@ -317,7 +393,7 @@ def run_family(tier, seed, binary=None):
     open_classes = {k.get("signature", {}).get("class") for k in vk.known_findings() if k.get("status", "open") == "open"}
     if "export-import-with-channel-alias" in open_classes:
         scheds = [s for s in scheds if not (s["id"].startswith("G44-") and s["kind"] == "UNORDERED")]
-    scheds = scheds + [dict(p) for p in PROBES.values()]
+    scheds = canon_schedules() + scheds + [dict(p) for p in PROBES.values()]
     vk.log("generated %d schedules in %.1fs" % (len(scheds), time.time() - t0))
     groups = drive(binary, scheds, workdir, "main", sizes(tier)["shards"])
     vk.log("drove %d schedules (%.1fs)" % (len(scheds), time.time() - t0))
@@ -375,4 +451,5 @@ def replay(schedule, binary=None):
         binary = vk.build_harness("packet")
     groups = drive(binary, [schedule], workdir, "replay", 1)
     fails, _ = validate(groups, workdir, "replay")
-    return fails, groups
+    dfails, _ = determinism(binary, [schedule], groups, workdir)
+    return attribute(fails + dfails, [schedule]), groups
